@@ -217,11 +217,11 @@ func c10Exec(ctx context.Context, v *vStore, w *c10World, c c10Call) (out c10Cal
 // ---- acknowledged state and the window model on top of it -----------------------------------
 
 type c10Ack struct {
-	registered map[int]bool            // stream -> registered
-	opened     map[int]map[int][]byte  // stream -> k -> payload (log opens handed to the caller)
-	slides     map[int]int             // stream -> completed first-time opens (window slides that certainly happened)
-	maxSeal    map[int]uint64          // group -> highest counter handed out
-	keys       map[string]string       // key name -> value handed out
+	registered map[int]bool           // stream -> registered
+	opened     map[int]map[int][]byte // stream -> k -> payload (log opens handed to the caller)
+	slides     map[int]int            // stream -> completed first-time opens (window slides that certainly happened)
+	maxSeal    map[int]uint64         // group -> highest counter handed out
+	keys       map[string]string      // key name -> value handed out
 	putgroup   map[int]bool
 }
 
